@@ -138,6 +138,16 @@ fn key_eq(a: u64, b: u64) -> bool {
     a == b
 }
 
+/// A *borrowed form* of a key (C01: "a lookup through any equivalent borrowed form of a key finds the
+/// same entry"): hashes like the key and is `Equivalent` to it, but is a different type.
+pub struct KQ(pub u64);
+impl Hash for KQ {
+    fn hash<H: Hasher>(&self, state: &mut H) { key_hash(self.0, state) }
+}
+impl<K: KeyT> hashbrown::Equivalent<K> for KQ {
+    fn equivalent(&self, k: &K) -> bool { key_eq(self.0, k.id()) }
+}
+
 /// Key with drop glue (tracked).
 pub struct Kd {
     pub id: u64,
